@@ -673,6 +673,14 @@ func serverTLSConfig(kind string) *tls.Config {
 	if kind == "" {
 		kind = "valid"
 	}
+	switch kind {
+	case "tls13only":
+		// a good certificate, but nothing below TLS 1.3: a client that allows TLS 1.2 at most gets the alert protocol_version
+		return &tls.Config{Certificates: []tls.Certificate{certByKey["valid"]}, MinVersion: tls.VersionTLS13}
+	case "needclientcert":
+		// a good certificate, and the server demands one of the client: without it, the alert bad_certificate
+		return &tls.Config{Certificates: []tls.Certificate{certByKey["valid"]}, ClientAuth: tls.RequireAnyClientCert}
+	}
 	return &tls.Config{Certificates: []tls.Certificate{certByKey[kind]}}
 }
 
